@@ -569,24 +569,11 @@ range_string_view(const char* const path, const ZixIndexRange range)
   return zix_substring(path + range.begin, range.end - range.begin);
 }
 
-#ifdef _WIN32
-
 ZixStringView
 zix_path_root_name(const char* const path)
 {
   return range_string_view(path, zix_path_root_name_range(path));
 }
-
-#else
-
-ZixStringView
-zix_path_root_name(const char* const path)
-{
-  (void)path;
-  return zix_empty_string();
-}
-
-#endif
 
 ZixStringView
 zix_path_root_directory(const char* const path)
